@@ -81,3 +81,27 @@ m("c18-add-no-dag-guard", ["C18"], U, "        if is_dag(next_supergraph):\n    
 m("c18-add-upper-triangle-only", ["C18"], U, "    fro, to = np.where((A + A.T + np.eye(len(A))) == 0)\n    rng = np.random.default_rng(random_state)\n    edges = list(zip(fro, to))",
   "    fro, to = np.where((A + A.T + np.eye(len(A))) == 0)\n    rng = np.random.default_rng(random_state)\n    edges = [e for e in zip(fro, to) if e[0] < e[1]]")
 m("c18-add-ignores-seed", ["C18", "C13"], U, "    fro, to = np.where((A + A.T + np.eye(len(A))) == 0)\n    rng = np.random.default_rng(random_state)", "    fro, to = np.where((A + A.T + np.eye(len(A))) == 0)\n    rng = np.random.default_rng(random_state if random_state else None)")
+
+# ---- C01
+L = "sempler/lganm.py"
+m("c01-int-dtype-copy", ["C01"], L, "        variances = self.variances.astype(float)\n        means = self.means.astype(float)", "        variances = self.variances.copy()\n        means = self.means.copy()", note="the pinned tree's behaviour")
+m("c01-do-keeps-incoming-edges", ["C01"], L, "            W[:, targets] = 0\n", "            W[:, targets[:1]] = 0\n", note="needs >= 2 do targets, the second with parents")
+m("c01-noise-adds-variance", ["C01"], L, "            means[targets] = noise_interventions[:, 1]\n            variances[targets] = noise_interventions[:, 2]", "            means[targets] = noise_interventions[:, 1]\n            variances[targets] += noise_interventions[:, 2]")
+m("c01-scalar-means-unit-variance", ["C01"], L, "            interventions.append([target, params, 0])", "            interventions.append([target, params, 1])")
+m("c01-ctor-range-from-zero", ["C01"], L, "            self.means = rng.uniform(means[0], means[1], size=self.p)", "            self.means = rng.uniform(min(0, means[0]), means[1], size=self.p)")
+m("c01-shift-after-noise", ["C01"], L, "        if shift_interventions:\n            shift_interventions = _parse_interventions(shift_interventions)\n            targets = shift_interventions[:, 0].astype(int)\n            means[targets] += shift_interventions[:, 1]\n            variances[targets] += shift_interventions[:, 2]\n",
+  "", note="shift block removed here and re-inserted after the noise block by the next mutant is not expressible; this one drops shifts on variables that are also noise targets only if combined - kept simple: drops all shifts")
+m("c01-noise-overrides-do", ["C01"], L, "        if do_interventions:\n            do_interventions = _parse_interventions(do_interventions)\n            targets = do_interventions[:, 0].astype(int)\n            means[targets] = do_interventions[:, 1]\n            variances[targets] = do_interventions[:, 2]",
+  "        if do_interventions:\n            do_interventions = _parse_interventions(do_interventions)\n            targets = do_interventions[:, 0].astype(int)\n            keep = np.array([t not in (noise_interventions[:, 0] if len(noise_interventions) else []) for t in targets])\n            means[targets[keep]] = do_interventions[keep, 1]\n            variances[targets[keep]] = do_interventions[keep, 2]",
+  note="on a target that is both do- and noise-intervened the noise parameters win")
+
+# ---- C02
+A_ = "sempler/anm.py"
+m("c02-shift-before-do", ["C02"], A_, "            if i in do_interventions:\n                X[:, i] = do_interventions[i](n)",
+  "            if i in do_interventions and i not in shift_interventions:\n                X[:, i] = do_interventions[i](n)")
+m("c02-parents-by-row", ["C02"], A_, "self.assignments[i](X[:, self.A[:, i] != 0])", "self.assignments[i](X[:, self.A[i, :] != 0] if self.p > 6 else X[:, self.A[:, i] != 0])", note="needs p >= 7")
+m("c02-parents-reversed", ["C02"], A_, "self.assignments[i](X[:, self.A[:, i] != 0])", "self.assignments[i](X[:, np.where(self.A[:, i] != 0)[0][::-1]])")
+m("c02-index-order-instead-of-topological", ["C02"], A_, "        for i in self.ordering:", "        for i in (self.ordering if self.p < 5 else sorted(self.ordering)):")
+m("c02-shift-drops-original-noise", ["C02"], A_, "                    noise = self.noise_distributions[i](n) + shift_interventions[i](n)", "                    noise = shift_interventions[i](n)")
+m("c02-noise-iv-adds-original", ["C02"], A_, "                    noise = noise_interventions[i](n)", "                    noise = noise_interventions[i](n) + self.noise_distributions[i](n)")
+m("c02-positive-weights-only", ["C02"], A_, "self.assignments[i](X[:, self.A[:, i] != 0])", "self.assignments[i](X[:, self.A[:, i] > 0])", note="needs a negative entry in the adjacency")
